@@ -26,6 +26,9 @@ def dispatch(prop):
     if prop == 'C18':
         import p_fault
         return p_fault.check
+    if prop == 'C06':
+        import p_par
+        return p_par.check
     if prop == 'C07':
         import p_dist
         return p_dist.check
